@@ -446,8 +446,10 @@ def gen(tier, rng):
             if n == 1:
                 add('w.nz.random.limb', [ws, [1], [1]], 'w.nz.random')
                 add('w.nz.random.limb_infallible', [ws, [1], [0]], 'w.nz.random')
-    for bl in [1, 2, 3, 31, 32, 33, 63, 64, 65, 96, 97, 127, 128, 129, 192, 256, 320]:
-        k = (bl + 63) // 64
+    # bit_length 0 is outside the value spec (the documentation says nothing about it) but the produced wrapper must
+    # still be odd: the invariant predicate of extra_check (3) is evaluated on it
+    for bl in [0, 1, 2, 3, 31, 32, 33, 63, 64, 65, 96, 97, 127, 128, 129, 192, 256, 320]:
+        k = max(1, (bl + 63) // 64)
         for ws in ([0] * k, [MAXW] * k, [MAXW - 1] * k, [0] * (k - 1), [2] + [0] * (k - 1), [0] * (k - 1) + [1 << ((bl - 1) % 64)],
                    [limb(rng) for _ in range(k)], [limb(rng) for _ in range(k + 1)], [1 << 32] * k, [(1 << 32) - 2] * k):
             for r in ('', '.infallible_rng'):
